@@ -37,6 +37,8 @@ Inductive op :=
 | ONormTk (core : tensor Q) (Fs : list qmat)
 (* one factor update of non_negative_tucker from recorded numerator / denominator *)
 | OMuTk (eps : Q) (X N D : qmat)
+(* non_negative_tucker(tensor, rank, init=(core, Fs), n_iter_max=n, normalize_factors=nm): complete runs, eps = 10e-12 *)
+| OTkMu (eps : Q) (T core : tensor Q) (Fs : list qmat) (nm : bool) (n : nat)
 (* _BroThesisLineSearch.line_step extrapolation + clipping *)
 | OLine (nn : list nat) (jump : Q) (last cur : list qmat).
 
@@ -72,6 +74,10 @@ Definition run (o : op) : out :=
   | ONormCp w Fs => let r := cp_normalize Qops qnrm2 (w, Fs) in OutMats (fst r) (snd r)
   | ONormTk core Fs => let r := tucker_normalize Qops qnrm2 (core, Fs) in OutMats (data (fst r)) (snd r)
   | OMuTk eps X N D => OutMats [] [mu_update_tk Qops eps X N D]
+  | OTkMu eps T core Fs nm n =>
+      let r := non_negative_tucker Qops qnrm2 eps (fun _ => tk_mu_num Qops T) (fun _ => tk_mu_den Qops)
+                                   (fun _ => tk_mu_numc Qops T) (fun _ => tk_mu_denc Qops) (fun _ _ => false) nm (length Fs) n (core, Fs) in
+      OutMats (data (fst r)) (snd r)
   | OLine nn jump last cur => OutMats [] (line_step Qops nn jump last cur)
   end.
 
